@@ -302,6 +302,14 @@ class MemoryFileSystem(FileSystem):
   def isdir(self, path: Union[str, os.PathLike[str]]) -> bool:
     return isinstance(self._locate(path), dict)
 
+  def _dir_path(self, path: Union[str, os.PathLike[str]]) -> str:
+    """A trailing slash names the same directory, as for `os.mkdir`/`rmdir`."""
+    path = resolve_path(path)
+    stripped = path.rstrip('/')
+    if stripped and stripped != self._prefix.rstrip('/'):
+      return stripped
+    return path
+
   def _parent_and_name(
       self, path: Union[str, os.PathLike[str]]
   ) -> tuple[dict[str, Any], str]:
@@ -318,11 +326,7 @@ class MemoryFileSystem(FileSystem):
       self, path: Union[str, os.PathLike[str]], mode: int = 0o777
   ) -> None:
     del mode
-    # A trailing slash names the same directory, as it does for `os.mkdir`.
-    stripped = resolve_path(path).rstrip('/')
-    if stripped and stripped != self._prefix.rstrip('/'):
-      path = stripped
-    parent_dir, name = self._parent_and_name(path)
+    parent_dir, name = self._parent_and_name(self._dir_path(path))
     if name in parent_dir:
       raise FileExistsError(path)
     parent_dir[name] = {}
@@ -359,7 +363,7 @@ class MemoryFileSystem(FileSystem):
     del parent_dir[name]
 
   def rmdir(self, path: Union[str, os.PathLike[str]]) -> None:  # pytype: disable=signature-mismatch
-    parent_dir, name = self._parent_and_name(path)
+    parent_dir, name = self._parent_and_name(self._dir_path(path))
     entry = parent_dir.get(name)
     if entry is None:
       raise FileNotFoundError(path)
